@@ -36,6 +36,8 @@ import (
 //   unh    - ctx.Unhandled()
 //   gone   - remote tell (real remoting on loopback, through the outbound coalescer) to a
 //            name that never existed / an actor that has stopped on a second system
+//   susp   - remote tell to an actor on the second system that supervision has suspended (its
+//            error matched no directive); it is still in the actors tree and is never reinstated
 //   batch  - coalesced remote batch to an endpoint that accepts the TCP connection and
 //            closes it (whole batch fails -> coalesced failure drain on the sending system)
 //
@@ -49,6 +51,7 @@ const (
 	c18FlagUnhandled = 1 << 0 // the receiving actor calls ctx.Unhandled() for this message
 	c18FlagGate      = 1 << 1 // harness message that parks the actor inside Receive
 	c18FlagFence     = 1 << 2 // harness message marking the end of a sender's traffic
+	c18FlagFail      = 1 << 3 // harness message: the actor reports an error no supervisor directive matches (-> suspended)
 )
 
 // mailbox kinds
@@ -67,7 +70,16 @@ const (
 	c18Stopped        // spawned on B, then stopped before any traffic
 	c18Missing        // a name that never existed on B
 	c18Hole           // an address on the endpoint that fails every batch
+	c18Suspended      // spawned on B, then suspended by supervision (no matching directive) before any traffic; stays in the tree, never reinstated
 )
+
+var c18StateNames = []string{"live", "stopped", "missing", "failing-endpoint", "suspended"}
+
+// c18Fault is an error type no supervisor directive is registered for: the default
+// supervisor finds no directive (and no any-error directive) and suspends the actor.
+type c18Fault struct{}
+
+func (*c18Fault) Error() string { return "c18 fault without a directive" }
 
 type c18Target struct {
 	OnB        bool `json:"on_b"`  // hosted by system B (reached from A through remoting)
@@ -101,7 +113,7 @@ func c18Gen(t *rapid.T) c18Case {
 	nt := rapid.IntRange(1, 4).Draw(t, "targets")
 	for i := 0; i < nt; i++ {
 		var tg c18Target
-		switch rapid.IntRange(0, 9).Draw(t, "target_kind") {
+		switch rapid.IntRange(0, 10).Draw(t, "target_kind") {
 		case 0, 1, 2, 3: // live on A
 		case 4, 5: // live on B
 			tg.OnB = true
@@ -109,6 +121,8 @@ func c18Gen(t *rapid.T) c18Case {
 			tg.OnB, tg.State = true, c18Stopped
 		case 7:
 			tg.OnB, tg.State = true, c18Missing
+		case 10:
+			tg.OnB, tg.State = true, c18Suspended
 		default:
 			tg.OnB, tg.State = true, c18Hole
 		}
@@ -177,6 +191,10 @@ func (a *c18Actor) Receive(ctx *ReceiveContext) {
 		close(a.started)
 	case *testpb.TestSum:
 		flags := m.GetB()
+		if flags&c18FlagFail != 0 {
+			ctx.Err(new(c18Fault))
+			return
+		}
 		if flags&c18FlagGate != 0 {
 			a.once.Do(func() { close(a.entered) })
 			select {
@@ -437,12 +455,16 @@ func c18Run(x *vfkit.X, fix *c18Fixture, c c18Case) (v c18Verdict) {
 			}
 		}
 	}
+	var parked []*PID // suspended targets: never reinstated, only stopped when the case is over
 	defer func() {
 		release()
 		for _, l := range lives {
 			if l != nil {
 				_ = l.pid.Shutdown(context.Background())
 			}
+		}
+		for _, p := range parked {
+			_ = p.Shutdown(context.Background())
 		}
 	}()
 
@@ -454,7 +476,7 @@ func c18Run(x *vfkit.X, fix *c18Fixture, c c18Case) (v c18Verdict) {
 			side = &fix.b
 		}
 		switch tg.State {
-		case c18Live, c18Stopped:
+		case c18Live, c18Stopped, c18Suspended:
 			act := &c18Actor{rec: rec, gate: make(chan struct{}), entered: make(chan struct{}), started: make(chan struct{}), slow: time.Duration(tg.SlowMicros) * time.Microsecond}
 			opts := []SpawnOption{WithLongLived()}
 			switch tg.Mailbox {
@@ -482,6 +504,25 @@ func c18Run(x *vfkit.X, fix *c18Fixture, c c18Case) (v c18Verdict) {
 			if tg.State == c18Stopped {
 				if err := pid.Shutdown(ctx); err != nil {
 					v.inconclusive = "shutdown_failed"
+					return
+				}
+			} else if tg.State == c18Suspended {
+				parked = append(parked, pid)
+				if err := Tell(ctx, pid, &testpb.TestSum{A: -2, B: c18FlagFail}); err != nil {
+					v.inconclusive = "fail_trigger_refused"
+					return
+				}
+				// supervision runs asynchronously: the remote tells are only sent once the suspension is visible
+				deadline := time.Now().Add(20 * time.Second)
+				for !pid.IsSuspended() {
+					if time.Now().After(deadline) {
+						v.inconclusive = "suspend_timeout"
+						return
+					}
+					time.Sleep(time.Millisecond)
+				}
+				if node, ok := side.sys.actors.node(pid.getAddress().String()); !ok || node.value() == nil {
+					v.inconclusive = "suspended_actor_not_in_tree"
 					return
 				}
 			} else {
@@ -671,6 +712,13 @@ func c18Run(x *vfkit.X, fix *c18Fixture, c c18Case) (v c18Verdict) {
 	}
 	vfsched.SetNoise(0, 0, 0)
 
+	// the suspended targets must still be suspended: nothing reinstated them while the traffic arrived
+	for _, p := range parked {
+		if !p.IsSuspended() {
+			v.inconclusive = "suspended_target_changed_state"
+			return
+		}
+	}
 	// counts reported by the systems, sandwiched around the drain of the event streams
 	type sideCount struct{ m1, m2, seen int64 }
 	counts := map[bool]*sideCount{}
@@ -714,7 +762,7 @@ func c18Run(x *vfkit.X, fix *c18Fixture, c c18Case) (v c18Verdict) {
 			tg := c.Targets[m.target]
 			evs := byID[m.id]
 			desc := fmt.Sprintf("message id=%d sender#%d(actor %d) -> target#%d(%s %s cap=%d gated=%v onB=%v) unhandled=%v",
-				m.id, si, c.Senders[si].Actor, m.target, []string{"live", "stopped", "missing", "failing-endpoint"}[tg.State], c18MbNames[tg.Mailbox], tg.Capacity, tg.Gated, tg.OnB, m.unhandled)
+				m.id, si, c.Senders[si].Actor, m.target, c18StateNames[tg.State], c18MbNames[tg.Mailbox], tg.Capacity, tg.Gated, tg.OnB, m.unhandled)
 			if m.err != nil {
 				// not accepted for delivery: the property is silent
 				v.classes = append(v.classes, "tell_refused")
@@ -731,6 +779,8 @@ func c18Run(x *vfkit.X, fix *c18Fixture, c c18Case) (v c18Verdict) {
 			switch {
 			case tg.State == c18Hole:
 				cause = "batch"
+			case tg.State == c18Suspended:
+				cause = "suspended"
 			case tg.State != c18Live:
 				cause = "gone"
 			case handled == 1 && m.unhandled:
@@ -938,7 +988,7 @@ func TestVF_C18_deadletters(t *testing.T) {
 	fix := c18Fixtures(t)
 	vfkit.Run(t, vfkit.Spec[c18Case]{
 		ID: "C18", Unit: "deadletters",
-		Rule: "cases = 1..4 targets (live actor on system A or on system B behind real loopback remoting, with an unbounded / non-blocking bounded / bounded-priority / bounded-stable-priority mailbox of capacity 1..4, optionally parked inside Receive while the senders run, optionally a slow handler; an actor on B that has stopped; a name that never existed on B; an address on an endpoint that fails every coalesced batch) x 1..4 concurrent senders (anonymous or one of three sender actors on A) each sending 1..12 uniquely numbered messages, some of which the receiver answers with ctx.Unhandled(); schedule noise profile; every accepted message must be either passed to Receive once (and, if unhandled, dead-lettered once) or dead-lettered once on the system that dropped it, with the right sender, receiver and payload; Metric().DeadlettersCount() must equal the number of Deadletter events published; non-trivial = >= 2 different drop causes occurred in the case, or >= 2 senders hit a mailbox that overflowed; distinct = distinct cases",
+		Rule: "cases = 1..4 targets (live actor on system A or on system B behind real loopback remoting, with an unbounded / non-blocking bounded / bounded-priority / bounded-stable-priority mailbox of capacity 1..4, optionally parked inside Receive while the senders run, optionally a slow handler; an actor on B that has stopped; an actor on B that was suspended by supervision (error without a matching directive, confirmed with IsSuspended before the traffic starts, never reinstated); a name that never existed on B; an address on an endpoint that fails every coalesced batch) x 1..4 concurrent senders (anonymous or one of three sender actors on A) each sending 1..12 uniquely numbered messages, some of which the receiver answers with ctx.Unhandled(); schedule noise profile; every accepted message must be either passed to Receive once (and, if unhandled, dead-lettered once) or dead-lettered once on the system that dropped it, with the right sender, receiver and payload; Metric().DeadlettersCount() must equal the number of Deadletter events published; non-trivial = >= 2 different drop causes occurred in the case, or >= 2 senders hit a mailbox that overflowed; distinct = distinct cases",
 		Gen:  c18Gen, Exec: c18Exec(fix),
 		ReplayReps: 20,
 	})
